@@ -361,29 +361,41 @@ func (m *ldbManager) Add(transaction Transaction) error {
 	frontierIdentifier := GetFrontierIdentifier(db)
 
 	if previous == frontierIdentifier {
-		if err := m.ldb.Put(common.JoinBytes(patchByte, common.Uint64ToBytes(identifier.Height)), patch.Dump(), nil); err != nil {
+		// redo record, undo record and every state key are written in one atomic batch
+		batch := new(leveldb.Batch)
+		batch.Put(common.JoinBytes(patchByte, common.Uint64ToBytes(identifier.Height)), patch.Dump())
+		batch.Put(common.JoinBytes(rollbackByte, common.Uint64ToBytes(identifier.Height)), rollbackPatch.Dump())
+		if err := ApplyPatch(newLevelDBBatchWrapper(batch).Subset(frontierByte), patch); err != nil {
 			return err
 		}
-		if err := m.ldb.Put(common.JoinBytes(rollbackByte, common.Uint64ToBytes(identifier.Height)), rollbackPatch.Dump(), nil); err != nil {
-			return err
-		}
-		if err := ApplyPatch(NewLevelDBWrapper(m.ldb).Subset(frontierByte), patch); err != nil {
+		if err := m.ldb.Write(batch, nil); err != nil {
 			return err
 		}
 	}
 	return nil
 }
 func (m *ldbManager) Pop() error {
-	frontierIdentifier := GetFrontierIdentifier(m.Frontier())
+	m.changes.Lock()
+	defer m.changes.Unlock()
+	if m.stopped {
+		return errors.Errorf("can't rollback stopped db")
+	}
+	snapshot, err := m.ldb.GetSnapshot()
+	if err != nil {
+		return err
+	}
+	frontierIdentifier := GetFrontierIdentifier(NewLevelDBSnapshotWrapper(snapshot).Subset(frontierByte))
+	snapshot.Release()
 	rollbackPatch := m.getRollback(frontierIdentifier.Height)
 
-	if err := ApplyPatch(NewLevelDBWrapper(m.ldb).Subset(frontierByte), rollbackPatch); err != nil {
+	// the undo of every state key and the removal of the redo/undo records are written in one atomic batch
+	batch := new(leveldb.Batch)
+	if err := ApplyPatch(newLevelDBBatchWrapper(batch).Subset(frontierByte), rollbackPatch); err != nil {
 		return err
 	}
-	if err := m.ldb.Delete(common.JoinBytes(patchByte, common.Uint64ToBytes(frontierIdentifier.Height)), nil); err != nil {
-		return err
-	}
-	if err := m.ldb.Delete(common.JoinBytes(rollbackByte, common.Uint64ToBytes(frontierIdentifier.Height)), nil); err != nil {
+	batch.Delete(common.JoinBytes(patchByte, common.Uint64ToBytes(frontierIdentifier.Height)))
+	batch.Delete(common.JoinBytes(rollbackByte, common.Uint64ToBytes(frontierIdentifier.Height)))
+	if err := m.ldb.Write(batch, nil); err != nil {
 		return err
 	}
 
